@@ -92,6 +92,16 @@ class TemplateEval:
             if m and self.is_value(m.group(1)):
                 return [("hole", "SH_SIGN")]
             raise Inconclusive("template: sign selector `%s`" % s)
+        if isinstance(e, ast.IfExp) and isinstance(e.body, ast.Constant) and isinstance(e.orelse, ast.Constant):
+            # sign selector written as a conditional: "-" if v.imag < 0 else "+"   (or the mirrored test)
+            t = " ".join(u(e.test).split())
+            m = re.fullmatch(r"(\w+)\.imag < 0", t)
+            m2 = re.fullmatch(r"(\w+)\.imag >= 0", t)
+            if m and self.is_value(m.group(1)) and (e.body.value, e.orelse.value) == ("-", "+"):
+                return [("hole", "SH_SIGN")]
+            if m2 and self.is_value(m2.group(1)) and (e.body.value, e.orelse.value) == ("+", "-"):
+                return [("hole", "SH_SIGN")]
+            raise Inconclusive("template: conditional piece `%s`" % " ".join(u(e).split())[:60])
         if isinstance(e, ast.Attribute) and isinstance(e.value, ast.Name) and self.is_value(e.value.id) and e.attr in ("real", "imag"):
             return [("hole", "SH_FLOAT")]
         if isinstance(e, ast.Call):
@@ -438,9 +448,12 @@ def structure(rep, R, ix, M):
         pairs = [(e.elts[0].value if isinstance(e.elts[0], ast.Constant) else None, u(e.elts[1])) for e in loops[0].iter.elts]
         okm = pairs == [(G.literal_of("TARGET"), "self.target"), (G.literal_of("PROGTYPE"), "self.programtype")]
         line = [n for n in ast.walk(loops[0]) if isinstance(n, ast.Call) and isinstance(n.func, ast.Attribute) and n.func.attr == "append" and u(n.func.value) == "script"]
-        okm = okm and len(line) == 1 and norm.canon_text(line[0].args[0]) == "{name} {data['name']}{options}"
+        # the line: '<keyword> <name>' followed by the options text - held in a local, or written in place (empty / ' (<k>=<v>, ...)')
+        OPTS = " ({', '.join(option_strings)})"
+        forms = {"{name} {data['name']}{options}", "{name} {data['name']}", "{name} {data['name']}" + OPTS}
+        okm = okm and len(line) >= 1 and all(norm.canon_text(l_.args[0]) in forms for l_ in line) and any(norm.canon_text(l_.args[0]) != "{name} {data['name']}" for l_ in line)
         opt = [n for n in ast.walk(loops[0]) if isinstance(n, ast.Assign) and u(n.targets[0]) == "options" and isinstance(n.value, ast.Call)]
-        okm = okm and len(opt) == 1 and norm.canon_text(opt[0].value) == " ({', '.join(option_strings)})"
+        okm = okm and len(opt) <= 1 and all(norm.canon_text(o_.value) == OPTS for o_ in opt) and (bool(opt) or any(norm.canon_text(l_.args[0]).endswith(OPTS) for l_ in line))
     rep.check(okm, R, ix.site(f, loops[0]) if loops else ix.site(f), "target and type lines are '<keyword> <name>[ (<k>=<v>, ...)]' in that order, written only when a name is set", key="meta|target type")
     # statement lines
     lines = [n for n in walk_shallow(fn) if isinstance(n, ast.Call) and isinstance(n.func, ast.Attribute) and n.func.attr == "append" and u(n.func.value) == "script" and "|" in u(n)]
@@ -539,7 +552,10 @@ def arrays(rep, R, ix, M, L):
     rep.check(seen == set(want), R, ix.site(f), "complex, integer and floating arrays each have a declaration branch", key="array|dtypes")
     rep.check(always_raises(els), R, ix.site(f), "any other dtype raises", key="array|else")
     tail = fn.body[fn.body.index(chain[0]) + 1:]
-    okt = len(tail) == 2 and " ".join(u(tail[0]).split()) == "script.append('')" and " ".join(u(tail[1]).split()) == "return script"
+    def blank_then_return(ss):
+        return len(ss) >= 2 and " ".join(u(ss[-2]).split()) == "script.append('')" and " ".join(u(ss[-1]).split()) == "return script"
+    # after the dispatch, or (when the continuation was written / normalised into the arms) at the end of every arm
+    okt = (len(tail) == 2 and blank_then_return(tail)) or (not tail and all(blank_then_return(body) for _, body in arms))
     rep.check(okt, R, ix.site(f), "a blank line terminates the declaration (the array body ends at the first line that is not an indented row)", key="array|blank")
     # hoisting in serialize
     s = ix.func(SER)
@@ -566,7 +582,17 @@ def arrays(rep, R, ix, M, L):
             return out
         got_c = canon_block(body, loc)
         want_c = norm.alpha_of_source(ref, ref_loc)
-        if txt and (got_c == want_c or fstring_equal(body, ast.parse(ref).body, loc, ref_loc)):
+
+        def append_last(stmts):
+            """the statement that writes the name into the argument list may stand anywhere after the name is bound: compare with it moved last"""
+            col = "args" if slot.name.startswith("positional") else "kwargs"
+            app = [x for x in stmts if isinstance(x, ast.Expr) and isinstance(x.value, ast.Call) and isinstance(x.value.func, ast.Attribute) and x.value.func.attr == "append" and u(x.value.func.value) == col]
+            if len(app) != 1 or stmts.index(app[0]) == 0:
+                return None
+            return [x for x in stmts if x is not app[0]] + app
+        b2, r2 = append_last(list(body)), append_last(ast.parse(ref).body)
+        moved = b2 is not None and r2 is not None and (norm.alpha(b2, loc) == norm.alpha(r2, ref_loc) or fstring_equal(b2, r2, loc, ref_loc))
+        if txt and (got_c == want_c or fstring_equal(body, ast.parse(ref).body, loc, ref_loc) or moved):
             rep.ok(R, ix.site(s, chain_), "%s: every array value gets its own declaration A<n>, inserted line by line at the insertion point, which then advances by the number of lines" % slot.name)
         else:
             alltxt = " ".join(txt)
